@@ -49,6 +49,7 @@ def check_C14(ctx):
         ctx.rule("TLS-RESTORE").floor("user_code_calls[%s]" % cfg, 2, cfg)
         tls.rule_args_owned(ctx, cfg, F)
         ctx.rule("SEND-ARGS-OWNED").floor("send_fns[%s]" % cfg, 1, cfg)
+        ipcl.rule_buf_fresh(ctx, cfg, F)
     ctx.assume("bincode::serialize_into / bincode::deserialize are the only entry points through which user Serialize/Deserialize code runs inside the bracket")
     ctx.assume("unwind paths excluded: a panicking Serialize impl is outside the rule")
 
@@ -235,11 +236,13 @@ def check_C12(ctx):
         ctx.rule("TRUNC-ERR").floor("followup_reads[%s]" % cfg, 1, cfg)
         recv.rule_closed_origin(ctx, cfg, F)
         ctx.rule("CLOSED-ORIGIN").floor("closed_constructions[%s]" % cfg, 2, cfg)
+        send.rule_frag_route(ctx, cfg, F)
+        send.rule_peer_closed(ctx, cfg, F)
     ctx.assume("a dying sender closes both ends of its per-message socketpair (kernel), so the follow-up read returns 0")
 
 
 LEVEL["C09"] = ("Decides the structural clause of C09 only: every sendmsg/send result is checked and a non-positive result becomes Err(errno) (SEND-CHECK); in the platform "
-                "send no Err edge reaches Ok or is dropped -- it is returned, or it is the guarded ENOBUFS retry (SEND-PROP); the ipc layer returns the platform result "
+                "send no Err edge reaches Ok or is dropped -- it is returned, or it is the guarded ENOBUFS retry (SEND-PROP); the sender releases its own copy of the per-message receive end before any follow-up, so a vanished receiver yields EPIPE instead of a hang (SEND-PEER-CLOSED); the ipc layer returns the platform result "
                 "(RESULT-USED). Not decided: that the kernel reports EPIPE/ECONNRESET promptly; receivers in transit; SIGPIPE (not raised on SEQPACKET sockets: checked once by experiment).")
 
 
@@ -249,8 +252,13 @@ def check_C09(ctx):
         ctx.rule("SEND-CHECK").floor("transmission_calls[%s]" % cfg, 2, cfg)
         send.rules_send_flow(ctx, cfg, F, "C09")
         ctx.rule("SEND-PROP").floor("fallible_calls[%s]" % cfg, 4, cfg)
+        send.rule_peer_closed(ctx, cfg, F)
+        ctx.rule("SEND-PEER-CLOSED").floor("followup_sites[%s]" % cfg, 1, cfg)
     for cfg, F in ctx.configs(["K1", "K3"]):
         _result_used(ctx, cfg, F)
+        tls.rule_tls_restore(ctx, cfg, F)
+    for cfg, F in ctx.configs(["K1", "K2"]):
+        fd.rule_fd_drop(ctx, cfg, F, fd.build_model(F))
     ctx.assume("Linux does not raise SIGPIPE for send on a SOCK_SEQPACKET socket whose peer is closed (EPIPE is returned)")
 
 
@@ -315,6 +323,8 @@ def check_C02(ctx):
         send.rule_inproc_one_push(ctx, cfg, F)
     for cfg, F in ctx.configs(["K1", "K3"]):
         _no_clone_receiver(ctx, cfg, F)
+        ipcl.rule_buf_fresh(ctx, cfg, F)
+        ipcl.rule_whole_buf(ctx, cfg, F)
     ctx.assume("SOCK_SEQPACKET keeps packet boundaries and per-socket FIFO order; crossbeam unbounded channels are FIFO")
 
 
@@ -414,6 +424,8 @@ def check_C01(ctx):
     for cfg, F in ctx.configs(["K1", "K3"]):
         ipcl.rule_whole_buf(ctx, cfg, F)
         ctx.rule("WHOLE-BUF").floor("payload_sites[%s]" % cfg, 4, cfg)
+        ipcl.rule_buf_fresh(ctx, cfg, F)
+        ctx.rule("BUF-FRESH").floor("serialise_calls[%s]" % cfg, 1, cfg)
     ctx.assume("kernel packetisation keeps each sendmsg/send as one packet; bincode round-trips values")
 
 
